@@ -244,11 +244,7 @@ func (tw *twin) multiStep(r *Rng, side *Sidecar, cases *CasesFile, idx *int, seq
 
 	// chain A
 	tw.A.SetCode(caller.GetEthAddress(), C11BuildMulti(calls))
-	qA := tw.A.QueryCtx()
-	preA := map[string]string{}
-	for _, a := range tw.tracked {
-		preA[a.GetEthAddress().Hex()] = tw.acctAt(tw.A, qA, a.GetCosmosAddress(), tw.A.Time)
-	}
+	preA := tw.snapParties(tw.A)
 	res := tw.A.C11SendEth(sender, caller.GetEthAddress(), nil, txGas)
 	if res.Code != 0 {
 		// the whole transaction died: legitimate only where a native message server panics as well (natively the whole
@@ -361,13 +357,13 @@ func (tw *twin) multiStep(r *Rng, side *Sidecar, cases *CasesFile, idx *int, seq
 		side.Hit(fmt.Sprintf("C11/staking/multi-call/%s-differs-from-native", what), fmt.Sprintf("after a transaction with %d precompile calls the twin chains differ in %v", len(items), d.Diff), d)
 	}
 	// third parties
-	qA = tw.A.QueryCtx()
+	qA := tw.A.QueryCtx()
 	for _, a := range tw.tracked {
 		if a == caller {
 			continue
 		}
-		if now := tw.acct(tw.A, qA, a.GetCosmosAddress()); now != preA[a.GetEthAddress().Hex()] {
-			side.Hit("C11/staking/multi-call/third-party-state-changed", fmt.Sprintf("balance / delegations / entries of %s changed although the caller was %s: before %s, after %s", a.GetEthAddress().Hex(), caller.GetEthAddress().Hex(), preA[a.GetEthAddress().Hex()], now), d)
+		if now, ch := tw.changed(tw.A, qA, a, preA); ch {
+			side.Hit("C11/staking/multi-call/third-party-state-changed", fmt.Sprintf("balance / delegations / entries of %s changed although the caller was %s: before %s, after %s", a.GetEthAddress().Hex(), caller.GetEthAddress().Hex(), preA.plain[a.GetEthAddress().Hex()], now), d)
 		}
 	}
 	for _, l := range logs {
